@@ -157,6 +157,18 @@ CHECKS['C04'] = dict(
     technique='machine-checked proof by exhaustive case analysis (Coq) + differential correspondence with a scripted child + real unresponsive children',
 )
 
+CHECKS['C02'] = dict(
+    text=('The statement is mostly about CPython pickle and OS pipes, so the theorems are thin and the weight is in the differential harness: '
+          'Worker.create is regenerated into a Coq function and proved to map the six (type, persistence) pairs to the six class names; a '
+          'two-party pipe model proves that waiting for a result of ANY size terminates under EVERY interleaving with the draining parent (and that '
+          'a join-only parent deadlocks above the capacity - the pinned defect). The harness runs targets, argument shapes, return values (None, '
+          'falsy, nested, custom class, 0 bytes .. 5/8 MB across 64 KiB and the socketpair limit), exceptions with 0-2 arguments, not-run workers, '
+          'constructor and factory, in thread, process and remote workers and compares each with the direct call and with each other.'),
+    design='5/C02',
+    note=('Partial: value fidelity is pickle\'s; buffer sizes are the kernel\'s. The pipe model (Equiv/Pipe.v) is hand-written. ' + COMMON_NOTE),
+    technique='machine-checked proof (Coq) of the factory mapping and of deadlock freedom in a pipe model + differential execution across kinds',
+)
+
 NOT_YET = {}
 
 
